@@ -50,7 +50,7 @@ def run_case(c):
         else:
             r = getattr(L, PW[c["fn"]])(x, y, **kw)
     elif k == "ncc":
-        r = L.ncc_loss(x, y, epsilon=c["eps"], reduction=c["reduction"])
+        r = L.ncc_loss(x, y, mask=T(c.get("mask")), epsilon=c["eps"], reduction=c["reduction"])
     elif k == "lcc":
         r = L.lcc_loss(x, y, mask=T(c.get("mask")), kernel_size=tuple(c["ks"]), epsilon=c["eps"], reduction=c["reduction"])
     elif k == "wlcc":
@@ -191,8 +191,6 @@ def similarity_checks(rng, R, name, f, tol, kind, base, x, y, m, shape, form, ep
             # ---- identical inputs -> zero / documented minimum
             R.tick("identical")
             for mm, tag in ((None, "nomask"), (m, "mask")):
-                if mm is not None and name == "ncc_loss":
-                    continue
                 v = R.guard(f"C16:{name}:raises", base, lambda: f(x, x, mm, "none"))
                 if v is None:
                     continue
@@ -209,8 +207,6 @@ def similarity_checks(rng, R, name, f, tol, kind, base, x, y, m, shape, form, ep
             # ---- symmetry
             R.tick("symmetry")
             for mm in (None, m):
-                if mm is not None and name == "ncc_loss":
-                    continue
                 for r in ("none", "mean", "sum"):
                     a = R.guard(f"C16:{name}:raises", base, lambda: f(x, y, mm, r))
                     b = R.guard(f"C16:{name}:raises", base, lambda: f(y, x, mm, r))
@@ -219,8 +215,6 @@ def similarity_checks(rng, R, name, f, tol, kind, base, x, y, m, shape, form, ep
             # ---- range
             R.tick("range")
             for mm in (None, m):
-                if mm is not None and name == "ncc_loss":
-                    continue
                 v = R.guard(f"C16:{name}:raises", base, lambda: f(x, y, mm, "none"))
                 if v is None:
                     continue
@@ -231,8 +225,6 @@ def similarity_checks(rng, R, name, f, tol, kind, base, x, y, m, shape, form, ep
             # ---- mean / sum are the mean / sum of none
             R.tick("reductions")
             for mm in (None, m):
-                if mm is not None and name == "ncc_loss":
-                    continue
                 none = R.guard(f"C16:{name}:raises", base, lambda: f(x, y, mm, "none"))
                 s = R.guard(f"C16:{name}:raises", base, lambda: f(x, y, mm, "sum"))
                 mean = R.guard(f"C16:{name}:raises", base, lambda: f(x, y, mm, "mean"))
@@ -240,7 +232,8 @@ def similarity_checks(rng, R, name, f, tol, kind, base, x, y, m, shape, form, ep
                     continue
                 if not close(s, none.sum(), tol * 10):
                     R.fail(f"C16:{name}:sum-not-sum-of-none", f"sum {float(s):.6g} vs {float(none.sum()):.6g}", **base)
-                div = none.numel() if mm is None else float(mm.expand(none.shape).sum())
+                # ncc_loss: one value per batch item, plain mean over the items also with a mask
+                div = none.numel() if (mm is None or name == "ncc_loss") else float(mm.expand(none.shape).sum())
                 if not close(mean, none.sum() / div, tol * 10):
                     R.fail(f"C16:{name}:mean-not-mean-of-none",
                            f"mean {float(mean):.6g} vs sum(none)/{'numel' if mm is None else 'mask sum'} = {float(none.sum() / div):.6g}", **base)
@@ -252,7 +245,18 @@ def similarity_checks(rng, R, name, f, tol, kind, base, x, y, m, shape, form, ep
                 if kind in ("pw",) or name == "lcc_loss":
                     if not close(vm, v0 * m, tol):
                         R.fail(f"C16:{name}:mask-not-multiplicative", "masked 'none' output differs from unmasked output times mask", **base)
-                if kind == "pw":
+                if name == "ncc_loss":
+                    # reference: the correlation of the selected samples only (binary mask), per batch item
+                    me = m.expand(shape)
+                    if bool(((me == 0) | (me == 1)).all()) and all(int(me[n_].sum()) >= 2 for n_ in range(shape[0])):
+                        ref = torch.stack([L.ncc_loss(x[n_][me[n_] == 1].reshape(1, 1, 1, -1), y[n_][me[n_] == 1].reshape(1, 1, 1, -1),
+                                                      epsilon=eps, reduction="none")[0] for n_ in range(shape[0])])
+                        if not close(vm, ref, 1e-4):
+                            R.fail("C16:ncc_loss:mask-not-selected-samples", "masked ncc_loss differs from ncc_loss of the selected samples", **base)
+                    ones = f(x, y, torch.ones_like(m), "none")
+                    if not close(ones, v0, tol):
+                        R.fail("C16:ncc_loss:mask-of-ones", "an all-ones mask changes ncc_loss", **base)
+                if kind == "pw" or name == "ncc_loss":
                     # change both images arbitrarily where the mask is zero
                     z = (m.expand(shape) == 0).to(x.dtype)
                     x2, y2 = x + z * rnd(rng, shape, -3, 3), y + z * rnd(rng, shape, -3, 3)
@@ -491,7 +495,7 @@ def oracle_modules(rng, n, R):
         base = {"x": spec(x), "y": spec(y), "mask": spec(m), "eps": eps, "ks": ks, "param": par, "norm": norm}
         pairs = [
             ("Dice", lambda mm: M.Dice(epsilon=eps)(x, y, mm), lambda mm: L.dice_loss(x, y, weight=mm, epsilon=eps), True),
-            ("NCC", lambda mm: M.NCC(epsilon=eps)(x, y, mm), lambda mm: L.ncc_loss(x, y, mask=mm, epsilon=eps), False),
+            ("NCC", lambda mm: M.NCC(epsilon=eps)(x, y, mm), lambda mm: L.ncc_loss(x, y, mask=mm, epsilon=eps), True),
             ("LCC", lambda mm: M.LCC(kernel_size=ks, epsilon=eps)(x, y, mm), lambda mm: L.lcc_loss(x, y, mask=mm, kernel_size=ks, epsilon=eps), True),
             ("WLCC", lambda mm: M.WLCC(kernel_size=ks, epsilon=eps)(x, y, mm), lambda mm: L.wlcc_loss(x, y, mask=mm, kernel_size=ks, epsilon=eps), True),
             ("L1ImageLoss", lambda mm: M.L1ImageLoss(norm=norm)(x, y, mm), lambda mm: L.mae_loss(x, y, mask=mm, norm=norm), True),
